@@ -16,6 +16,20 @@ CHECKS.update({
             "Every configuration of the annealing grid is run on the real algorithm object (initialisation + one update per iteration, plus complete tiny fits) and every binary acceptance history up to three windows is fed through every sampler class; invariants are checked on every transition.",
             "Default (linear) annealing scheme only; grids as listed in the evidence bounds; reference plateau length max(1, A // (P-1))."),
 })
+CHECKS.update({
+    "C03": ("model_checking", "deviation-bounded exhaustive enumeration of scripted environment answers (normal/uniform draws, ties, shuffle orders, locality pairs) through the real samplers, with recording spies on State.put and the metropolis step",
+            "Every script with a bounded number of deviations from the default draws is run through the real sample() of the four sampler kinds, for every latent variable of the catalogue models, several start states and inverse temperatures; each decision is compared with the documented rule evaluated from scratch (exactly, ties included) and draw consumption is counted.",
+            "Small draw alphabets; nothing about the invariant distribution of the chain; mixture model not covered."),
+    "C05": ("model_checking", "exhaustive stepping of the real iteration machine (k, n_burn_in, S_k) with a probe model over a configuration grid, plus recorded complete fits of real models",
+            "Every configuration (iterations, burn-in fraction or count, step power) of the grid drives the real _maximization_step for every iteration with a probe model returning a known statistics sequence; the weights of every s_j in S_k are compared with the exact recursion; real fits bind the same recursion to real models.",
+            "n_burn_in = count or int(fraction*n_iter); probe model replaces only the two model methods the step calls."),
+    "C08": ("exploration", "exhaustive grid enumeration of distribution parameters and layouts through the real families and model states against scipy.stats",
+            "Full products of small parameter alphabets (values, locations, scales, Weibull shape/scale, shifts, censoring, layouts, dtypes the models reach) evaluated through the real distribution families and through real model states, compared entry by entry with scipy.stats in float64.",
+            "Grid alphabets only; tolerance 2e-5 of the summed term magnitudes; float32 event times are unreachable from the models and excluded."),
+    "C09": ("exploration", "exhaustive grid enumeration of parameters, individual parameters, age lists and request layouts through estimate / compute_individual_trajectory against an independent float64 closed form",
+            "Every combination of model kind, dimension, sources, parameter vector, individual parameters, age list and request form in the grid is run through the real estimate(); values are compared with an independent numpy implementation of the documented formula, plus range, monotonicity, reference-time value, order and layout of the result.",
+            "Grid alphabets only; per-value tolerance derived from float32 rounding of the logit; joint event columns only checked for count and range."),
+})
 NOT_APPLICABLE = {}
 
 def main():
